@@ -34,7 +34,7 @@ def _pool_job(job):
     n = int(rng.integers(8, 13))
     X, y, y_true, classes, labeling = R.gen_data(rng, E.task, n=n, binary=E.binary, cold=str(rng.choice(["half", "few"])))
     seed = int(rng.integers(0, 1000))
-    bs = 1 if E.max_bs else int(rng.integers(1, 4))
+    bs = 1 if E.max_bs else int(rng.choice([1, 2, 3, 5, 7]))       # large batches too: BatchBALD leaves the exact joint-entropy regime
 
     def q(gseed, obj=None):
         np.random.seed(gseed)
@@ -198,7 +198,7 @@ def run(ctx):
     ctx.extra["rng_sites"] = [f"{s[1]}:{s[3]} {s[4]}" for s in sites]
     # ---- dynamic: pool ----
     entries = PL._entries()
-    jobs = [(ei, (ctx.seed, ei, h, 606)) for ei in range(len(entries)) for h in range((1 if entries[ei].slow else 3) if ctx.is_quick else (4 if entries[ei].slow else 20))]
+    jobs = [(ei, (ctx.seed, ei, h, 606)) for ei in range(len(entries)) for h in range((1 if entries[ei].slow else 5) if ctx.is_quick else (4 if entries[ei].slow else 20))]
     for out in pmap(_pool_job, jobs, chunksize=2):
         ctx.count(out["name"])
         if out["bs"] >= 2:
